@@ -166,8 +166,21 @@ func (p *Prog) roles() *Roles {
 			brokenf("sequencer role: expected exactly one goroutine around the slot loop (%s), found %d", funcName(slotFn), len(roots))
 		}
 		seqs[0] = roots[0]
+		// helpers of the sequencer: plain functions, function literals and methods of the sequencer's own receiver
+		// type in its package; methods of other components (the event cache, the hub) are not part of the role
+		rootRecv := roots[0].Signature.Recv()
 		r.SeqRegion = &fnRegion{root: roots[0], descend: func(g *ssa.Function) bool {
-			return g.Pkg == slotFn.Pkg && g != sinks[0] && g.Synthetic == ""
+			if g.Pkg != slotFn.Pkg || g == sinks[0] || g.Synthetic != "" {
+				return false
+			}
+			top := g
+			for top.Parent() != nil {
+				top = top.Parent()
+			}
+			if rv := top.Signature.Recv(); rv != nil {
+				return rootRecv != nil && types.Identical(rv.Type(), rootRecv.Type())
+			}
+			return true
 		}}
 	}
 	r.Sink, r.Sequencer = sinks[0], seqs[0]
